@@ -383,9 +383,8 @@ class ParseAPI(object):
         Parse a public pair as a text SEC.
         Return a :class:`Key <pycoin.key.Key>` or None.
         """
-        pair = parse_colon_prefix(s)
-        if pair is not None and pair[0] == self._wif_prefix:
-            s = pair[1]
+        if self._sec_prefix and s.startswith(self._sec_prefix):
+            s = s[len(self._sec_prefix) :]
         try:
             sec = h2b(s)
             return self._network.keys.public(sec)
